@@ -187,6 +187,7 @@ func cmdExplore(args []string) int {
 	ps := fs.String("p", "", "params k=v,k=v")
 	known := fs.String("known", "", "open known-finding ids (comma separated)")
 	budget := fs.Duration("budget", 0, "time budget")
+	sms := fs.Int("solver-ms", 0, "per-query solver limit in ms")
 	maxPaths := fs.Int("maxpaths", 0, "path budget")
 	native := fs.Bool("native", false, "replay failures and samples natively")
 	dq := fs.String("dump-queries", "", "write every solver query of the run to this file")
@@ -212,6 +213,7 @@ func cmdExplore(args []string) int {
 	for _, k := range splitList(*known) {
 		km[k] = true
 	}
+	setSolverTimeout(*sms)
 	r, err := p.explore(*entry, parseParams(*ps), km, *budget, *maxPaths, 0)
 	if err != nil {
 		fmt.Println(err)
